@@ -4,8 +4,13 @@ time; every other client is parked on its own semaphore inside the monitoring ca
 start barrier).  Which client runs next, where faults are raised and where the garbage collector
 runs are decided either by a seeded strategy (generative mode, decisions are recorded) or by an
 explicit recorded schedule (replay mode, no PRNG involved).
+
+Hot path: the callback only counts (`step += 1`) until the next *stop* (the nearest of: next
+scheduling decision, next fault, next gc point, budget limit); per-client and per-op event counts
+are derived from the global step counter at stops and op boundaries.
 """
 import gc
+import math
 import sys
 import threading
 import zlib
@@ -16,6 +21,7 @@ from .ops import SimAbort, run_op, exc_obs
 mon = sys.monitoring
 TOOL = 3
 DISABLE = mon.DISABLE
+INF = 1 << 60
 
 # repo functions that SQLAlchemy calls back while compiling: never a switch / fault point (§3.2)
 NO_SWITCH_NAMES = frozenset(['_compile_interval', 'render_literal_value'])
@@ -27,7 +33,7 @@ class SimBudget(BaseException):
 
 class Client:
     __slots__ = ('cid', 'ops', 'env', 'sem', 'thread', 'ev', 'op_i', 'op_ev', 'results', 'done',
-                 'fault_at', 'fired', 'budgets', 'op_evs', 'prio', 'pending_fault')
+                 'faults', 'fired', 'budgets', 'op_evs', 'prio', 'pending_fault', 'gcs', 'rp', 'since', 'next_sw')
 
     def __init__(self, cid, ops, env):
         self.cid = cid
@@ -35,17 +41,21 @@ class Client:
         self.env = env
         self.sem = threading.Semaphore(0)
         self.thread = None
-        self.ev = 0            # events seen by this client so far
+        self.ev = 0            # events of this client in completed ops
         self.op_i = -1
-        self.op_ev = 0         # events inside the current op
+        self.op_ev = 0         # events inside the current op (valid after _sync)
         self.results = []
         self.done = False
-        self.fault_at = {}     # (op_i, op_ev) -> kind
-        self.fired = []        # [(op_i, op_ev, kind, where)]
+        self.faults = {}       # op_i -> sorted [(op_ev, kind)]
+        self.fired = []        # [op_i, op_ev, kind, where]
         self.budgets = None    # per-op step budgets or None
         self.op_evs = []       # events per completed op
         self.prio = 0
         self.pending_fault = None
+        self.gcs = {}          # op_i -> sorted [op_ev]
+        self.rp = {}           # replay: op_i -> sorted [(op_ev, next)]
+        self.since = 0         # rr: events since this client got the baton
+        self.next_sw = INF     # bernoulli: remaining events until the next switch attempt
 
 
 class Sim:
@@ -55,37 +65,41 @@ class Sim:
       gran: 'line' | 'instr';  scope: list of path prefixes that are pre-emption scope;
       fault_scope: list of path prefixes in which F2/F3 may be raised;
       strategy: {'kind': 'bernoulli', 'p':..} | {'kind': 'rr', 'q':..} | {'kind': 'pct', 'd':.., 'est':..}
-                | {'kind': 'none'} | {'kind': 'replay', 'switches': [[c, ev, nxt]..], 'finishes': [[c, nxt]..]}
-      sched_seed: int;  faults: [[client, op_i, op_ev, kind]..];  gcs: [[client, ev]..]
+                | {'kind': 'none'} | {'kind': 'replay', 'switches': [[c, op_i, op_ev, nxt]..], 'finishes': [[c, nxt]..], 'first': c}
+      sched_seed: int;  faults: [[client, op_i, op_ev, kind]..];  gcs_at: [[client, op_i, op_ev]..]
+      full_digest: bool  — fold every single event (client, file, position) into the event-log digest
     """
 
     def __init__(self, spec, clients, watchdog_s=60.0):
         self.spec = spec
         self.clients = clients
-        self.by_tid = {}
         self.scope_prefixes = tuple(spec['scope'])
         self.fault_prefixes = tuple(spec.get('fault_scope') or spec['scope'])
         self.scope_cache = {}
         self.rng = random.Random(spec.get('sched_seed', 0))
         self.step = 0
+        self.stop = INF
+        self.mark = 0
         self.digest = 0
-        self.switches = []     # recorded [client, client_ev, next]
+        self.switches = []     # recorded [client, op_i, op_ev, next]
         self.finishes = []     # recorded [client, next]
         self.gc_fired = []
         self.current = None
         self.done_sem = threading.Semaphore(0)
         self.watchdog_s = watchdog_s
-        self.max_steps = spec.get('max_steps', 2_000_000)
-        self.overlap_funcs = {}     # co_name -> count of events where another client is parked in the same function
-        self.switch_sites = []      # (client, file:line) at switch points, for the interleaving signature
+        self.overlap_funcs = {}
+        self.switch_sites = []
         self.stack_names = {}
+        self.full_digest = bool(spec.get('full_digest'))
         st = spec['strategy']
         self.kind = st['kind']
-        self.since = 0
         if self.kind == 'replay':
-            self.rp_sw = {}
             for c, oi, ev, nxt in st.get('switches', []):
-                self.rp_sw[(c, oi, ev)] = nxt
+                if 0 <= c < len(clients):
+                    clients[c].rp.setdefault(oi, []).append((ev, nxt))
+            for c in clients:
+                for oi in c.rp:
+                    c.rp[oi].sort()
             self.rp_fin = {}
             for c, nxt in st.get('finishes', []):
                 self.rp_fin.setdefault(c, nxt)
@@ -97,14 +111,22 @@ class Sim:
             for c, p in zip(clients, prios):
                 c.prio = p + 1000
             self.pct_low = 999
-        self.gcs = {}          # cumulative per-client positions (generative specs)
-        for c, ev in spec.get('gcs', []):
-            self.gcs[(c, ev)] = True
-        self.gcs_at = {}       # op-relative positions (replay specs)
+        elif self.kind == 'bernoulli':
+            self.p = st['p']
+            self.logq = math.log(1.0 - self.p)
+        elif self.kind == 'rr':
+            self.q = st['q']
         for c, oi, ev in spec.get('gcs_at', []):
-            self.gcs_at[(c, oi, ev)] = True
+            if 0 <= c < len(clients):
+                clients[c].gcs.setdefault(oi, []).append(ev)
         for c, op_i, op_ev, kind in spec.get('faults', []):
-            clients[c].fault_at[(op_i, op_ev)] = kind
+            if 0 <= c < len(clients):
+                clients[c].faults.setdefault(op_i, []).append((op_ev, kind))
+        for c in clients:
+            for oi in c.faults:
+                c.faults[oi].sort()
+            for oi in c.gcs:
+                c.gcs[oi].sort()
         self.error = None
 
     # ------------------------------------------------------------------ scope
@@ -118,27 +140,101 @@ class Sim:
         self.scope_cache[code] = v
         return v
 
-    # ------------------------------------------------------------------ the event callback
+    # ------------------------------------------------------------------ accounting
+    def _sync(self, c):
+        """Bring c.op_ev up to date with the global step counter (c is the running client)."""
+        d = self.step - self.mark
+        if d:
+            c.op_ev += d
+            c.since += d
+            if c.next_sw < INF:
+                c.next_sw -= d
+            self.mark = self.step
+
+    def _draw_gap(self):
+        u = self.rng.random()
+        return int(math.log(1.0 - u) / self.logq) + 1
+
+    def _plan_stop(self, c):
+        """Set self.stop: the global step at which the running client c next needs the slow path."""
+        if c.op_i < 0:
+            self.stop = INF
+            return
+        d = INF
+        ev = c.op_ev
+        if c.pending_fault is not None:
+            d = 1
+        fl = c.faults.get(c.op_i)
+        if fl:
+            while fl and fl[0][0] <= ev:
+                fl.pop(0)
+            if fl:
+                d = min(d, fl[0][0] - ev)
+        gl = c.gcs.get(c.op_i)
+        if gl:
+            while gl and gl[0] <= ev:
+                gl.pop(0)
+            if gl:
+                d = min(d, gl[0] - ev)
+        if c.budgets is not None:
+            d = min(d, max(1, c.budgets[c.op_i] - ev + 1))
+        k = self.kind
+        if k == 'bernoulli':
+            d = min(d, max(1, c.next_sw))
+        elif k == 'rr':
+            d = min(d, max(1, self.q - c.since))
+        elif k == 'pct':
+            if self.pct_points:
+                d = min(d, max(1, self.pct_points[0] - self.step))
+        elif k == 'replay':
+            rl = c.rp.get(c.op_i)
+            if rl:
+                while rl and rl[0][0] <= ev:
+                    rl.pop(0)
+                if rl:
+                    d = min(d, rl[0][0] - ev)
+        self.stop = self.step + d if d < INF else INF
+
+    # ------------------------------------------------------------------ the event callbacks
     def on_event(self, code, pos):
         sc = self.scope_cache.get(code)
         if sc is None:
             sc = self._in_scope(code)
         if not sc:
             return DISABLE
-        c = self.by_tid.get(threading.get_ident())
-        if c is None or c.op_i < 0:
-            return None
-        self.step += 1
-        c.ev += 1
-        c.op_ev += 1
-        self.digest = ((self.digest * 1000003) ^ ((sc >> 2) * 131 + pos * 7 + c.cid)) & 0xFFFFFFFFFFFF
-        # --- faults
-        if c.fault_at or c.pending_fault:
-            kind = c.fault_at.pop((c.op_i, c.op_ev), None) or c.pending_fault
+        self.step = s = self.step + 1
+        if s >= self.stop:
+            self._slow(code, pos, sc)
+
+    def on_event_full(self, code, pos):
+        sc = self.scope_cache.get(code)
+        if sc is None:
+            sc = self._in_scope(code)
+        if not sc:
+            return DISABLE
+        self.step = s = self.step + 1
+        cur = self.current
+        self.digest = ((self.digest * 1000003) ^ ((sc >> 2) * 131 + pos * 7 + (cur.cid if cur is not None else 99))) & 0xFFFFFFFFFFFF
+        if s >= self.stop:
+            self._slow(code, pos, sc)
+
+    def _slow(self, code, pos, sc):
+        c = self.current
+        if c is None or c.op_i < 0 or threading.get_ident() != c.thread.ident:
+            return
+        self._sync(c)
+        ev = c.op_ev
+        self.digest = ((self.digest * 1000003) ^ ((sc >> 2) * 131 + pos * 7 + c.cid + ev * 31)) & 0xFFFFFFFFFFFF
+        try:
+            # --- faults
+            kind = c.pending_fault
+            fl = c.faults.get(c.op_i)
+            if fl and fl[0][0] == ev:
+                kind = fl.pop(0)[1]
             if kind is not None:
                 if sc & 2:
                     c.pending_fault = None
-                    c.fired.append([c.op_i, c.op_ev, kind, '%s:%d' % (code.co_name, pos)])
+                    c.fired.append([c.op_i, ev, kind, '%s:%d' % (code.co_name, pos)])
                     if kind == 'abort':
                         raise SimAbort()
                     if kind == 'mem':
@@ -147,37 +243,43 @@ class Sim:
                         raise RecursionError('injected')
                 else:
                     c.pending_fault = kind
-        # --- budget (I3)
-        if c.budgets is not None and c.op_ev > c.budgets[c.op_i]:
-            c.budgets[c.op_i] = 1 << 60
-            raise SimBudget()
-        if self.step > self.max_steps:
-            self.max_steps = 1 << 60
-            raise SimBudget()
-        # --- gc
-        if self.gcs and (c.cid, c.ev) in self.gcs:
-            del self.gcs[(c.cid, c.ev)]
-            self.gc_fired.append([c.cid, c.op_i, c.op_ev])
-            gc.collect()
-        if self.gcs_at and (c.cid, c.op_i, c.op_ev) in self.gcs_at:
-            del self.gcs_at[(c.cid, c.op_i, c.op_ev)]
-            self.gc_fired.append([c.cid, c.op_i, c.op_ev])
-            gc.collect()
-        # --- switch?
-        nxt = self._decide(c)
-        if nxt is not None and nxt is not c:
-            self.switches.append([c.cid, c.op_i, c.op_ev, nxt.cid])
-            self.switch_sites.append((c.cid, sc >> 2, pos))
-            self._overlap(c)
-            self.current = nxt
-            nxt.sem.release()
-            c.sem.acquire()
-        return None
+            # --- budget (I3)
+            if c.budgets is not None and ev > c.budgets[c.op_i]:
+                c.budgets[c.op_i] = INF
+                raise SimBudget()
+            # --- gc
+            gl = c.gcs.get(c.op_i)
+            if gl and gl[0] == ev:
+                gl.pop(0)
+                self.gc_fired.append([c.cid, c.op_i, ev])
+                gc.collect()
+            # --- switch?
+            nxt = self._decide(c, ev)
+            if nxt is not None and nxt is not c:
+                self.switches.append([c.cid, c.op_i, ev, nxt.cid])
+                self.switch_sites.append((c.cid, sc >> 2, pos))
+                self._overlap(c)
+                self._handoff(nxt)
+                c.sem.acquire()
+                # c has the baton again (the hand-off to c already reset mark / stop for it)
+        finally:
+            if self.current is c:
+                self._plan_stop(c)
+
+    def _handoff(self, nxt):
+        """Give the baton to nxt (called by the running client, or by main at start)."""
+        self.current = nxt
+        nxt.since = 0
+        if self.kind == 'bernoulli':
+            nxt.next_sw = self._draw_gap()
+        self.mark = self.step
+        self._plan_stop(nxt)
+        nxt.sem.release()
 
     def _overlap(self, c):
         """Rare-condition probe: which in-scope functions are on the stacks of two clients at once."""
         names = set()
-        f = sys._getframe(2)
+        f = sys._getframe(3)
         while f is not None:
             code = f.f_code
             if self.scope_cache.get(code):
@@ -193,28 +295,29 @@ class Sim:
     def _runnable_others(self, c):
         return [x for x in self.clients if x is not c and not x.done]
 
-    def _decide(self, c):
+    def _decide(self, c, ev):
         k = self.kind
         if k == 'none':
             return None
         if k == 'replay':
-            n = self.rp_sw.get((c.cid, c.op_i, c.op_ev))
-            if n is None:
-                return None
-            x = self.clients[n] if 0 <= n < len(self.clients) else None
-            if x is None or x.done:
-                return None
-            return x
+            rl = c.rp.get(c.op_i)
+            if rl and rl[0][0] == ev:
+                n = rl.pop(0)[1]
+                x = self.clients[n] if 0 <= n < len(self.clients) else None
+                if x is None or x.done:
+                    return None
+                return x
+            return None
         if k == 'bernoulli':
-            if self.rng.random() < self.spec['strategy']['p']:
+            if c.next_sw <= 0:
+                c.next_sw = self._draw_gap()
                 o = self._runnable_others(c)
                 if o:
                     return o[self.rng.randrange(len(o))]
             return None
         if k == 'rr':
-            self.since += 1
-            if self.since >= self.spec['strategy']['q']:
-                self.since = 0
+            if c.since >= self.q:
+                c.since = 0
                 n = len(self.clients)
                 for i in range(1, n):
                     x = self.clients[(c.cid + i) % n]
@@ -222,7 +325,7 @@ class Sim:
                         return x
             return None
         if k == 'pct':
-            if self.pct_points and self.step >= self.pct_points[0]:
+            while self.pct_points and self.step >= self.pct_points[0]:
                 self.pct_points.pop(0)
                 c.prio = self.pct_low
                 self.pct_low -= 1
@@ -234,12 +337,25 @@ class Sim:
         return None
 
     # ------------------------------------------------------------------ client life cycle
+    def _op_start(self, c, i):
+        self._sync(c)
+        c.op_ev = 0
+        c.op_i = i
+        self.mark = self.step
+        self._plan_stop(c)
+
+    def _op_end(self, c):
+        self._sync(c)
+        c.ev += c.op_ev
+        c.op_evs.append(c.op_ev)
+        c.op_i = -1
+        self.stop = INF
+
     def _client_main(self, c):
         c.sem.acquire()
         try:
             for i, op in enumerate(c.ops):
-                c.op_ev = 0
-                c.op_i = i
+                self._op_start(c, i)
                 try:
                     obs = run_op(op, c.env)
                 except SimAbort:
@@ -250,19 +366,21 @@ class Sim:
                     obs = 'fault: ' + exc_obs(e)
                 except BaseException as e:  # noqa
                     obs = 'base-' + exc_obs(e)
-                c.op_i = -1
-                c.op_evs.append(c.op_ev)
+                self._op_end(c)
                 c.results.append(obs)
         except BaseException as e:  # harness failure inside a client
-            self.error = 'client %d: %r' % (c.cid, e)
+            import traceback
+            self.error = 'client %d: %r\n%s' % (c.cid, e, traceback.format_exc())
         finally:
             c.op_i = -1
             self._finish(c)
 
     def _finish(self, c):
         c.done = True
+        self.stop = INF
         rest = [x for x in self.clients if not x.done]
         if not rest:
+            self.current = None
             self.done_sem.release()
             return
         nxt = None
@@ -277,19 +395,17 @@ class Sim:
         if nxt is None:
             nxt = rest[0]
         self.finishes.append([c.cid, nxt.cid])
-        self.current = nxt
-        nxt.sem.release()
+        self._handoff(nxt)
 
     def run(self):
         """Run all clients to completion.  Returns True on normal completion, False on watchdog."""
         ev = mon.events.LINE if self.spec.get('gran', 'line') == 'line' else mon.events.INSTRUCTION
         mon.use_tool_id(TOOL, 'dsim')
-        mon.register_callback(TOOL, ev, self.on_event)
+        mon.register_callback(TOOL, ev, self.on_event_full if self.full_digest else self.on_event)
         for c in self.clients:
             t = threading.Thread(target=self._client_main, args=(c,), name='client-%d' % c.cid, daemon=True)
             c.thread = t
             t.start()
-            self.by_tid[t.ident] = c
         mon.set_events(TOOL, ev)
         first = self.clients[0]
         if self.kind == 'replay':
@@ -301,8 +417,7 @@ class Sim:
         elif self.kind == 'bernoulli':
             first = self.clients[self.rng.randrange(len(self.clients))]
         self.first = first.cid
-        self.current = first
-        first.sem.release()
+        self._handoff(first)
         ok = self.done_sem.acquire(timeout=self.watchdog_s)
         mon.set_events(TOOL, 0)
         mon.register_callback(TOOL, ev, None)
